@@ -441,7 +441,8 @@ def _extreme():
 
 KEYS = [("abc,def", None), ("abc def gh", None), ("a b,c", ","), ("a, b;c/d:e", None), ("x", None), ("", None), ("a,,b", None),
         (",a", None), ("a,", None), ("k1;k2;k3", ";"), ("one two", ""), (" lead", None), ("a:b c", ": "), ("ab", None), ("  ", None), (" ,", None),
-        ("a  ", None), (",", ",")]
+        ("a  ", None), (",", ","),
+        ("alpha\tbeta\tgamma", "\t"), ("a\nb\nc", "\n,"), ("k1\tk2,k3", ",\t"), ("one two", "\t")]
 
 
 def _keys():
@@ -567,6 +568,7 @@ def _plumbing():
     for k, t in enumerate(["1 2 3", "  ab c", "", " ", "x"]):
         out.append(("plumb:rest:%d" % k, ["it begin", "it string %s null" % H(t), "it rest", "it advance", "it rest", "it reset", "it value",
                                           "it rest", "it advance", "it rest", "it advance", "it rest"]))
+    out.append(("plumb:elems", ["it begin"] + ["it elems %d %d" % (z, c) for z in (2, 3, 4, 5, 8, 12, 16, 24, 7) for c in (1, 2, 3, 4, 9)]))
     out.append(("plumb:val", ["it begin", "it fromval lin", "it fromval range", "it fromval fac", "it rangeset vec2", "it rangeset vec3",
                               "it rangeset vecnull", "it rangeset type", "it rangeset itnull"]))
     return out
